@@ -58,6 +58,34 @@ def run_property(prop: str, tier: str, seed: int, root=None) -> int:
     return code
 
 
+def replay(path: str, seed: int, root=None) -> int:
+    """Re-evaluate the rule of a recorded violation against the current tree: exit 1 (with the diagnostic) if the same
+    obligation (rule, subject, construct) is still violated, exit 0 if it no longer is."""
+    from .engine import Engine
+
+    try:
+        rec = json.load(open(path))
+        prop, key = rec["property"], rec["key"]
+    except (OSError, ValueError, KeyError) as err:
+        print(f"ANALYSIS-ERROR cannot read replay file: {err}")
+        return 2
+    ctx = Ctx(prop, "quick", seed)
+    try:
+        importlib.import_module(f"sa.rules.{prop}").run(Engine(root), ctx)
+    except Exception as err:
+        print(f"ANALYSIS-ERROR property={prop} replay failed: {type(err).__name__}: {err}")
+        return 2
+    hits = [o for o in ctx.obs if o.status == "violated" and o.key == key]
+    same_rule = [o for o in ctx.obs if o.status == "violated" and o.rule == rec.get("rule")]
+    if hits:
+        o = hits[0]
+        print(f"VIOLATION property={prop} replay={path}")
+        print(f"  still violated: {o.rule} {o.file}:{o.line} in {o.subject}: `{o.construct}` expected: {o.expected}; found: {o.found}")
+        return 1
+    print(f"replay {key}: no longer violated on the current tree ({len(same_rule)} other violation(s) of rule {rec.get('rule')})")
+    return 0
+
+
 def main(argv=None) -> int:
     ap = argparse.ArgumentParser(prog="check")
     ap.add_argument("prop", nargs="?")
@@ -72,14 +100,7 @@ def main(argv=None) -> int:
 
         return self_check()
     if a.replay:
-        try:
-            rec = json.load(open(a.replay))
-        except (OSError, ValueError) as err:
-            print(f"ANALYSIS-ERROR cannot read replay file: {err}")
-            return 2
-        print(f"replaying {rec.get('key')} (recorded at {rec.get('file')}:{rec.get('line')})")
-        os.environ["VERIF_EVIDENCE_DIR"] = os.environ.get("VERIF_EVIDENCE_DIR", "/tmp/verif-replay-evidence")
-        return run_property(rec["property"], "quick", seed, a.repo)
+        return replay(a.replay, seed, a.repo)
     if not a.prop:
         ap.print_usage()
         return 2
